@@ -71,19 +71,24 @@ def load_known():
 
 
 def match_known(viol: dict, known: list) -> dict | None:
-    """A violation {property, function, clause, input_class, ...} matches a 'known' entry when property,
-    function and clause are equal and the entry's input_class pattern equals the violation's input class
-    (or the entry's input_class is a prefix ending in '*').  'fixed' entries never match."""
+    """A violation {property, function, clause, input_class, ...} matches a 'known' entry when property and function are
+    equal and the violation's clause and input class each match one of the entry's patterns (a string or a list of strings;
+    `*` `?` `[..]` as in fnmatch, matched case-sensitively against the whole string).  'fixed' entries never match."""
+    import fnmatch
+
+    def ok(patterns, value):
+        if patterns is None:
+            return False
+        if isinstance(patterns, str):
+            patterns = [patterns]
+        return any(fnmatch.fnmatchcase(value or "", p) for p in patterns)
+
     for k in known:
         if k.get("status") != "known":
             continue
-        if k.get("property") != viol.get("property"):
+        if k.get("property") != viol.get("property") or k.get("function") != viol.get("function"):
             continue
-        if k.get("function") != viol.get("function") or k.get("clause") != viol.get("clause"):
-            continue
-        pat = k.get("input_class", "*")
-        ic = viol.get("input_class", "")
-        if pat == ic or (pat.endswith("*") and ic.startswith(pat[:-1])):
+        if ok(k.get("clause"), viol.get("clause")) and ok(k.get("input_class"), viol.get("input_class", "")):
             return k
     return None
 
